@@ -3,3 +3,5 @@ from .renderable import *
 from .C06 import TRUSTED
 ASSUMPTIONS = ["faults are injected at every external call outside the function's own clean-up (finally) code; an interrupted write has delivered an arbitrary prefix"]
 NOT_DECIDED = ["signals arriving inside the finally clause itself"]
+
+from .C04 import u_renderer_frame  # noqa: F401,E402  (size setting restored by _renderer on every exit)
